@@ -36,6 +36,20 @@ KeyCanon(k) == IF k = "return" THEN "enter"
                ELSE IF k = " " THEN "space"
                ELSE IF k \in NamedKeys \cup SingleChars THEN k
                ELSE ""
+(* ALT chords written PREFIX + character: the atom "alt-" followed by one more atom.  The character may be one of the   *)
+(* grammar's own delimiters (alt-: alt-+ alt-,): DOCUMENTED as ordinary key names, so whatever escaping the scanner    *)
+(* uses internally has to be undone before the chord is looked up.  CODE-DERIVED names: alt-space / "alt- " print as   *)
+(* "alt- ", alt-enter / alt-return as ctrl-alt-m.                                                                      *)
+ALT == "alt-"
+AltCanon(a) == IF a = "space" \/ a = " " THEN "alt- "
+               ELSE IF a \in SingleChars THEN ALT \o a
+               ELSE IF a \in {"enter", "return"} THEN "ctrl-alt-m"
+               ELSE IF a \in {"up", "down"} THEN ALT \o a
+               ELSE ""
+(* the same chords as document-level key names (what a binding is written with): printed as two atoms *)
+AltDelimKeys == {"alt-:", "alt-+", "alt-,"}
+KeyAtoms(k) == CASE k = "alt-:" -> <<ALT, ":">> [] k = "alt-+" -> <<ALT, "+">> [] k = "alt-," -> <<ALT, ",">> [] OTHER -> <<k>>
+DocCanon(k) == IF k \in AltDelimKeys THEN k ELSE KeyCanon(k)
 (* keys that produce a printable character: the only ones `put` (without argument) may be bound to *)
 Printable(canon) == canon \in SingleChars \cup {"space"}
 
@@ -75,18 +89,29 @@ CommaKey(s) == \/ s = <<",">>                                     \* CODE-DERIVE
                \/ (Len(s) >= 2 /\ SubSeq(s, 1, 2) = <<",", ",">>)
                \/ (Len(s) >= 2 /\ SubSeq(s, Len(s) - 1, Len(s)) = <<",", ",">>)
                \/ HasSub(s, <<",", ",", ",">>)
-KeyTokenOK(t) == t = <<>> \/ (Len(t) = 1 /\ KeyCanon(t[1]) # "")
-KeyList(s) == LET ps == Pieces(s, ",") IN
+KCOMMA == "\\K,"            \* an escaped "," (CODE-DERIVED escapes; the others are with the scanner below)
+UnComma(a) == IF a = KCOMMA THEN "," ELSE a
+TokenCanon(t) == IF Len(t) = 1 THEN KeyCanon(t[1])
+                 ELSE IF Len(t) = 2 /\ t[1] = ALT THEN AltCanon(UnComma(t[2]))
+                 ELSE ""
+KeyTokenOK(t) == t = <<>> \/ TokenCanon(t) # ""
+RECURSIVE Repl(_, _, _)
+Repl(s, pat, rep) == IF Len(s) < Len(pat) THEN s
+                     ELSE IF SubSeq(s, 1, Len(pat)) = pat
+                          THEN rep \o Repl(SubSeq(s, Len(pat) + 1, Len(s)), pat, rep)
+                     ELSE <<Head(s)>> \o Repl(Tail(s), pat, rep)
+(* CODE-DERIVED: the "," of alt-, is protected before the list is cut at the commas (and before the "," rules look) *)
+KeyList(s0) == LET s  == Repl(s0, <<ALT, ",">>, <<ALT, KCOMMA>>)
+                   ps == Pieces(s, ",") IN
               IF s = <<>> \/ \E n \in 1..Len(ps) : ~KeyTokenOK(ps[n]) THEN [ok |-> FALSE, keys |-> {}]
               ELSE [ok |-> TRUE,
-                    keys |-> {KeyCanon(ps[n][1]) : n \in {m \in 1..Len(ps) : ps[m] # <<>>}}
+                    keys |-> {TokenCanon(ps[n]) : n \in {m \in 1..Len(ps) : ps[m] # <<>>}}
                              \cup (IF CommaKey(s) THEN {","} ELSE {})]
 
 -------------------------------------------------------------------------------
 (* The scanner *)
 MASK   == "\\MASK"          \* a masked (argument) position
 KCOLON == "\\K:"            \* escaped key ":"   (CODE-DERIVED escapes)
-KCOMMA == "\\K,"
 KPLUS  == "\\K+"
 
 RECURSIVE FindExec(_, _)
@@ -114,19 +139,17 @@ MaskFrom(s, i) ==
          ELSE MaskFrom(s, k)
 Mask(s) == MaskFrom(s, 1)
 
-RECURSIVE Repl(_, _, _)
-Repl(s, pat, rep) == IF Len(s) < Len(pat) THEN s
-                     ELSE IF SubSeq(s, 1, Len(pat)) = pat
-                          THEN rep \o Repl(SubSeq(s, Len(pat) + 1, Len(s)), pat, rep)
-                     ELSE <<Head(s)>> \o Repl(Tail(s), pat, rep)
 Escape(m) == LET m1 == Repl(m,  <<",", ",", ",">>, <<",", KCOMMA, ",">>)
                  m2 == Repl(m1, <<",", ":", ",">>, <<",", KCOLON, ",">>)
                  m3 == Repl(m2, <<":", ":">>, <<KCOLON, ":">>)
                  m4 == Repl(m3, <<",", ":">>, <<KCOMMA, ":">>)
              IN  Repl(m4, <<"+", ":">>, <<KPLUS, ":">>)
 
+UnEsc(a) == IF a = KCOLON THEN ":" ELSE IF a = KCOMMA THEN "," ELSE IF a = KPLUS THEN "+" ELSE a
 ResolveKey(k) == IF k = <<KCOLON>> THEN ":" ELSE IF k = <<KCOMMA>> THEN "," ELSE IF k = <<KPLUS>> THEN "+"
-                 ELSE IF Len(k) = 1 THEN KeyCanon(k[1]) ELSE ""
+                 ELSE IF Len(k) = 1 THEN KeyCanon(k[1])
+                 ELSE IF Len(k) = 2 /\ k[1] = ALT THEN AltCanon(UnEsc(k[2]))      \* alt-: alt-+ alt-, : the escaped character is the key's
+                 ELSE ""
 
 ERR == [err |-> TRUE]
 (* one "+"-separated piece of an action list; spec = its original atoms, m = the same piece of the masked string  *)
@@ -203,7 +226,7 @@ Join(ss, sep) == IF ss = <<>> THEN <<>> ELSE IF Len(ss) = 1 THEN ss[1] ELSE ss[1
 PrintAct(a) == IF a.form = "plain" THEN <<a.name>>
                ELSE IF a.form = ":" THEN <<a.name, ":">> \o a.arg
                ELSE <<a.name, a.form>> \o a.arg \o <<Close(a.form)>>
-PrintPair(p) == Join([n \in 1..Len(p.keys) |-> <<p.keys[n]>>], ",") \o <<":">> \o (IF p.app THEN <<"+">> ELSE <<>>)
+PrintPair(p) == Join([n \in 1..Len(p.keys) |-> KeyAtoms(p.keys[n])], ",") \o <<":">> \o (IF p.app THEN <<"+">> ELSE <<>>)
                 \o Join([n \in 1..Len(p.acts) |-> PrintAct(p.acts[n])], "+")
 PrintBind(b) == Join([n \in 1..Len(b) |-> PrintPair(b[n])], ",")
 
@@ -213,7 +236,7 @@ ActMeaning(a) == IF a.form = "plain" THEN [n \in 1..Len(PlainTypes(a.name)) |-> 
                  ELSE <<Act(a.name, Str(a.arg))>>
 RECURSIVE MeanKeys(_, _, _), Meaning(_, _)
 MeanKeys(km, p, n) == IF n > Len(p.keys) THEN km
-                      ELSE LET key == KeyCanon(p.keys[n])
+                      ELSE LET key == DocCanon(p.keys[n])
                                acts == (IF p.app THEN Bound(km, key) ELSE <<>>)
                                         \o Flat([m \in 1..Len(p.acts) |-> ActMeaning(p.acts[m])]) IN
                            MeanKeys(Bind(km, key, acts), p, n + 1)
@@ -226,11 +249,12 @@ Carry(form, arg) == form = ":" \/ \A i \in 1..(Len(arg) - 1) : arg[i] = Close(fo
 SpecialKeys == {",", ":", "+"}
 LegalPair(p, lastPair) ==
     /\ p.keys # <<>> /\ p.acts # <<>>
-    /\ \A n \in 1..Len(p.keys) : KeyCanon(p.keys[n]) # ""
-    /\ \A n \in 1..(Len(p.keys) - 1) : p.keys[n] \notin SpecialKeys       \* CODE-DERIVED: "," ":" "+" only as last key
+    /\ \A n \in 1..Len(p.keys) : DocCanon(p.keys[n]) # ""
+    /\ \A n \in 1..(Len(p.keys) - 1) : p.keys[n] \notin SpecialKeys \cup {"alt-:", "alt-,"}
+                                                                          \* CODE-DERIVED: "," ":" "+" alt-: alt-, only as last key
     /\ \A n \in 1..Len(p.acts) : LET a == p.acts[n] IN
           /\ a.form = "plain" => /\ a.name \in PlainNames
-                                 /\ a.name = "put" => \A m \in 1..Len(p.keys) : Printable(KeyCanon(p.keys[m]))
+                                 /\ a.name = "put" => \A m \in 1..Len(p.keys) : Printable(DocCanon(p.keys[m]))
           /\ a.form # "plain" => /\ a.name \in ExecNames /\ a.form \in DelimOpen \cup {":"}
                                  /\ Carry(a.form, a.arg)
                                  /\ a.name \in KeyListArg => KeyList(a.arg).ok
